@@ -19,7 +19,9 @@ STRVARS = ["os_name", "sys_platform", "platform_machine", "platform_system", "im
 STRLIT = ["linux", "linux2", "lin", "win32", "win", "darwin", "nt", "posix", "", "x86_64", "arm64", "cpython", "pypy"]
 # literals a renderer / tokenizer can mangle: runs of blanks, tabs, leading/trailing blanks, keywords, parentheses,
 # the other quote character, '#' (real platform_version strings look like this: "#1 SMP Wed Feb  1 12:00:00 UTC 2023")
-HOSTILE_STRLIT = ["Feb  1", "a\tb", " lead", "trail ", "x and y", "(x or y)", "it's", "#1 SMP  PREEMPT", "a  b  c"]
+HOSTILE_STRLIT = ["Feb  1", "a\tb", " lead", "trail ", "x and y", "(x or y)", "it's", "#1 SMP  PREEMPT", "a  b  c",
+                  # non-ASCII: Latin-1, BMP, and code points above U+FFFF (surrogate pairs in UTF-16 / JSON escapes)
+                  "caf\u00e9", "\u65e5\u672c", "\U0001f600", "\U0001d538b"]
 PYV = ["2.7", "3.0", "3.1", "3.6", "3.7", "3.8", "3.9", "3.10", "3.11", "3.12"]
 PYIN_LISTS = ["3.8, 3.9", "3.8,3.9", "3.10, 3.11", "2.7, 3.12", "3.8", "3.6, 3.7, 3.8"]
 PYV1 = ["3", "2", "3.8.0", "3.10.0"]  # other spellings of python_version values: bare major, X.Y.0
